@@ -1,6 +1,7 @@
 import TpmModel.Ser
 import TpmModel.ValParse
 import TpmModel.Spec
+import TpmModel.MsgSpec
 import TpmModel.Generated.Cmd
 import TpmModel.Pinned.Cmd
 import TpmModel.Generated.Misc
@@ -150,6 +151,41 @@ def handle (line : String) : List String :=
       | some (bs, evs) => ("B " ++ (if bs.isEmpty then "-" else hexOfBytes bs)) :: evs.map fun (o, e) => s!"E {o} {e.str}"
     | none, _ => ["X unknown-type " ++ ty]
     | _, none => ["X bad-val"]
+  | ["MSPEC", ty, cc, enc, hex] =>
+    -- is this message well-formed in the sense of `specCommand` / `specResponse` / `specStream`, and do the bytes and
+    -- events the specification dictates coincide with the input and with the strict decode of the model?
+    match bytesOfHex hex with
+    | none => ["X bad-hex"]
+    | some inp =>
+      let tb := Generated.msgTables
+      let report := fun (r : Option (List Byte × List SEv)) (walk : R Val) (extra : Nat) =>
+        match r with
+        | none => ["MS nonconforming"]
+        | some (bs, evs) =>
+          let tr := (stOf walk).out
+          let same := bs == inp && decide (evs.map (fun e => (e.1, Event.marshal e.2)) = tr.take (tr.length - extra))
+          [s!"MS {if same then "ok" else "mismatch"} bytes={bs.length} events={evs.length}"]
+      match ty with
+      | "Command" =>
+        let w := decodeCommand true tb rootPath (initSt inp)
+        (match w with
+         | .ok (v, _) => (match CmdParts.ofVal v with
+            | some p => report (specCommand tb rootPath p) w 0
+            | none => ["MS no-parts"])
+         | .error _ => ["MS decode-error"])
+      | "Response" =>
+        let c := if cc == "-" then none else cc.toInt?
+        let w := decodeResponse true tb c (enc == "1") rootPath (initSt inp)
+        (match w with
+         | .ok (v, _) => (match RspParts.ofVal v with
+            | some p => report (specResponse tb c (enc == "1") rootPath p) w 0
+            | none => ["MS no-parts"])
+         | .error _ => ["MS decode-error"])
+      | "Stream" =>
+        (match streamParts tb (inp.length + 1) inp with
+         | some (xs, last) => report (specStream tb rootPath last xs) (decodeStream true tb rootPath (inp.length + 1) (initSt inp)) 1
+         | none => ["MS decode-error"])
+      | _ => ["X bad-mspec"]
   | ["INT", pn, xs] =>
     match findPrim pn, xs.toInt? with
     | some p, some x => [primLine p x]
@@ -177,7 +213,7 @@ def handle (line : String) : List String :=
           | none => "F IOError" | some .pcapng => "F pcapng" | some .hex => "F hex" | some .binary => "F binary"]
       | _ => ["X bad-front"]
   | ["TRIM", payloads] =>
-    let ps := (payloads.splitOn ";").map bytesOfHex
+    let ps := (payloads.splitOn ";").map fun h => if h == "-" then some [] else bytesOfHex h
     if ps.any Option.isNone then ["X bad-hex"] else
     let bs := pcapBytes (ps.filterMap id)
     [s!"F ok {if bs.isEmpty then "-" else hexOfBytes bs}"]
